@@ -51,8 +51,16 @@ type VerifC31Batcher struct {
 // node.Peer is a real p2p.Peer created as addRelayersFromConfig creates it,
 // with no seeds and no listener.
 func VerifC31NewBatcher(dir, genesisPath string) (*VerifC31Batcher, error) {
+	return VerifC31NewBatcherWithConfig(dir, genesisPath, verifC31Config)
+}
+
+// VerifC31NewBatcherWithConfig is VerifC31NewBatcher with the node
+// configuration (config.toml text, in particular the signer key) supplied by
+// the caller, so that the local node can be one of the nodes of a genesis
+// file the harness generated itself.
+func VerifC31NewBatcherWithConfig(dir, genesisPath, configToml string) (*VerifC31Batcher, error) {
 	internal.ToggleMockRunAggregators(true)
-	if err := os.WriteFile(dir+"/config.toml", []byte(verifC31Config), 0644); err != nil {
+	if err := os.WriteFile(dir+"/config.toml", []byte(configToml), 0644); err != nil {
 		return nil, err
 	}
 	custom, err := config.Initialize(dir + "/config.toml")
@@ -195,4 +203,44 @@ func (b *VerifC31Batcher) RunOnce() (popped int, sent []*p2p.VerifC31Sent, panic
 		sent = append(sent, p.VerifC31Drain()...)
 	}
 	return popped, sent, panicVal
+}
+
+// MarkPeersSynced records, for every accepted node, a sync point on the local
+// chain at its current final round -- what UpdateSyncPoint stores once the
+// graph messages of a quorum have arrived (their signatures cannot be produced
+// here).  With it CheckBroadcastedToPeers / CheckCatchUpWithPeers hold and the
+// local node is in proposing state if its own cache round allows it.
+func (b *VerifC31Batcher) MarkPeersSynced() {
+	node := b.Node
+	final := node.chain.State.FinalRound
+	for _, cn := range node.NodesListWithoutState(clock.NowUnixNano(), true) {
+		if cn.IdForNetwork == node.IdForNetwork {
+			continue
+		}
+		node.SyncPoints.Set(cn.IdForNetwork, &p2p.SyncPoint{NodeId: node.IdForNetwork, Number: final.Number, Hash: final.Hash})
+	}
+	node.SyncPointsMap = node.SyncPoints.Map()
+}
+
+// PopSelfProposals drains the cosi action pool of the local chain and returns
+// the snapshots the batcher loop proposed for the local node itself
+// (sendTransactionsToNode(batch, self) -> AppendSelfEmpty), in order.
+func (b *VerifC31Batcher) PopSelfProposals() []*common.Snapshot {
+	var out []*common.Snapshot
+	for {
+		m := b.Node.chain.CachePool.Poll()
+		if m == nil {
+			return out
+		}
+		if m.Action == CosiActionSelfEmpty {
+			out = append(out, m.Snapshot)
+		}
+	}
+}
+
+// CachedTransaction reads a transaction the way the cosi loop finds the
+// transactions of a proposed snapshot (checkTxInStorage).
+func (b *VerifC31Batcher) CachedTransaction(hash crypto.Hash) (*common.VersionedTransaction, error) {
+	tx, _, err := b.Node.checkTxInStorage(hash)
+	return tx, err
 }
